@@ -53,6 +53,17 @@ func (m *Monitors) relInit() *relState {
 	return m.rel
 }
 
+// noteK3 remembers the contexts on the module-registered service (known finding K3).
+func (m *Monitors) noteK3(s *Snap) {
+	st := m.relInit()
+	for id, rc := range s.Ctxs {
+		if rc.ServiceName == modSvc && !st.k3ctx[id] {
+			st.k3ctx[id] = true
+			st.k3any = true
+		}
+	}
+}
+
 // tagCtx gives the known-finding prefix for failures that stem from a context.
 func (m *Monitors) tagCtx(id string) string {
 	if m.rel != nil && m.rel.k3ctx[id] {
@@ -195,13 +206,7 @@ func (m *Monitors) relational(o *Op, res string, pre *Pre, s *Snap, bal map[int6
 	st := m.relInit()
 	f := m.facts(o, res, pre, s)
 
-	// contexts on the module-registered service (known finding K3)
-	for id, rc := range s.Ctxs {
-		if rc.ServiceName == modSvc && !st.k3ctx[id] {
-			st.k3ctx[id] = true
-			st.k3any = true
-		}
-	}
+	m.noteK3(s)
 
 	// register newly issued requests before the checks use them
 	m.c02Issue(f, pre, s)
